@@ -15,10 +15,10 @@ fi
 ( cd "$D" && GOFLAGS=-mod=mod GOPROXY=off GOSUMDB=off GOTOOLCHAIN=local go1.26.8 build ./... ) || { echo "MUTANT DOES NOT COMPILE"; rm -rf "$D"; exit 2; }
 rc=0
 for p in "$@"; do
-  out=$(cd /verif && VERIF_REPO="$D" ./check "$p" ${TIER:-quick} 2>&1)
+  out=$(cd /verif && VERIF_SCRATCH_TAG="$(basename "$D")" VERIF_REPO="$D" ./check "$p" ${TIER:-quick} 2>&1)
   code=$?
   echo "$p exit=$code $(echo "$out" | grep -c '^VIOLATION') violation lines; first: $(echo "$out" | grep -m1 '^violation\|^crash\|^hang\|^data races')"
   [ $code -eq 1 ] || rc=1
 done
-rm -rf "$D"
+rm -rf "$D" "/verif/.build/scratch-$(basename "$D")"
 exit $rc
